@@ -28,6 +28,7 @@ def cellJ (h : HexCell) : Json := ints #[h.1, h.2.1, h.2.2]
 def floatsJ (l : List Float) : Json := Json.arr (l.map floatToJson).toArray
 
 def half : Float := 0.5
+def sqrtN (k : Nat) : Float := Float.sqrt (Float.ofNat k)
 
 def handle (op : String) (j : Json) : Option (R Json) :=
   match op with
@@ -102,11 +103,10 @@ def handle (op : String) (j : Json) : Option (R Json) :=
   | "hex_to_rc" => some do
       let cells ← getArr j "cells"
       let radius ← getFloat j "radius"; let rot ← getBool j "rotate"
-      let s3 := Float.sqrt 3
       let out ← cells.mapM fun c => do
         let v ← c.getArr?
         let q ← v[0]!.getInt?; let r ← v[1]!.getInt?; let t ← v[2]!.getInt?
-        let rc := hexToRC s3 (s3 / 2) 1.5 ((q, r, t) : HexCell) radius rot
+        let rc := Gen.hexToRC sqrtN ((q, r, t) : HexCell) radius rot
         pure (Json.arr #[floatToJson rc.1, floatToJson rc.2])
       pure (okJ [("rc", Json.arr out)])
   | "hex_segments" => some do
@@ -115,12 +115,12 @@ def handle (op : String) (j : Json) : Option (R Json) :=
       let rot ← getBool j "rotate"; let pad ← getNat j "pad"
       let drop ← (← getArr j "drop").mapM (·.getNat?)
       let th ← getFloats j "theta"
-      let s3 := Float.sqrt 3
-      let inner := radius * s3 / 2
-      let size : Int := hexSegmentsSize (fun x => Int.ofNat (Float.ceil x).toUInt64.toNat) rings pad inner gap
+      -- inner radius, array size, grid pitch and cell centres: the REGENERATED expressions of hex_segments / hex_to_rc
+      let inner := Gen.hexInner sqrtN radius
+      let size : Int := hexSegmentsSize (fun x => Int.ofNat (Float.ceil x).toUInt64.toNat) sqrtN rings pad radius gap
       let cells := segCells rings
       let kept := keptSegments rings drop.toList
-      let shifts := kept.map fun s => if s = 0 then ((0 : Float), (0 : Float)) else hexToRC s3 (s3 / 2) 1.5 (cells.getD s (0, 0, 0)) (radius + gap / 2) rot
+      let shifts := kept.map fun s => if s = 0 then ((0 : Float), (0 : Float)) else Gen.hexToRC sqrtN (cells.getD s (0, 0, 0)) (Gen.hexPitch radius gap) rot
       let px := (idxList size size).map fun (i, jj) =>
         (shifts.filter fun sh => hexagonAt half inner (fun n => Float.sin th[n]!) (fun n => Float.cos th[n]!) size size sh.1 sh.2 false i jj == 1).length
       pure (okJ [("size", intJ size), ("count", intJ kept.length), ("sum", ints (px.map Int.ofNat).toArray)])
